@@ -1,5 +1,6 @@
 """C12 — restoring a backup: verification before destruction, guarded clear, archive header parser."""
 from vlib.mo import *
+import re
 from vlib.runner import KH, run_kani_group, run_mir_obligations
 
 LEVEL = "other"
@@ -8,7 +9,7 @@ EXPLANATION = ("mirflow/z3: both restore entry points verify every archive of th
                "Kani: the archive member-name validator on arbitrary short byte strings.")
 TRUSTED_BASE = ["rustc MIR", "z3", "callee summaries by name", "Kani/CBMC", "CRC strength (trusted)"]
 NOT_COVERED = ["restored-content equality", "incremental selection by mtime", "single-byte corruption detection (CRC strength)",
-               "retention/dependency clause of prune_backups (interleaves decisions with directory reads and deletions; prune_backups never looks at parent_id — observation from reading, not decided here)"]
+               "retention bucketing arithmetic of prune_backups (which backup wins a bucket); the dependency clause is O12.4"]
 
 R = "backup::RestoreManager::"
 VERIFY = call(r"= RestoreManager::verify_backup_archive\(", name="verify_backup_archive")
@@ -65,6 +66,8 @@ def chain_order(F):
 OK_UNIT = stmt(r"^_0 = Result::<\(\), anyhow::Error>::Ok\(", name="return Ok(())")
 REMOVE = call(r"= std::fs::remove_file::", name="fs::remove_file")
 MOS = [
+    MO("O12.4/prune_dependencies", "prune_backups: files are removed only for backups outside the keep set and not younger than min_age_days (DECIDES); the keep set is closed under parent_id before anything is removed",
+       lambda F: prune_dependencies(F), functions=[("backup.rs", "prune_backups")], role="prune-ignores-parent-chain"),
     MO("O12.1/limits", "archive header parser: the name buffer is allocated only for 0 < name_len <= MAX_NAME, Ok only for data_len <= MAX_SIZE, file count Ok only for count <= MAX_FILES — proved for all values (DECIDES)",
        lambda F: limits_decided(F), functions=[("backup.rs", "read_archive_member_header"), ("backup.rs", "read_archive_file_count")]),
     MO("O12.3/chain_order", "restore_from_backup_with_options: for an incremental target the chain pushed along the parent links is reversed exactly once before any archive is verified or extracted, and it is not re-ordered by any other key",
@@ -92,6 +95,65 @@ MOS = [
                            Arm(r"^discr\(try\(call (backup::)?validate_backup_member_name\)\)$", {"0"}, name="validate_backup_member_name()? -> Ok"))),
        functions=[("backup.rs", "read_archive_member_header"), ("backup.rs", "read_archive_file_count")]),
 ]
+
+
+def prune_dependencies(F):
+    """prune_backups: (a) a backup file is removed only if its id is not in the keep set and it is at least min_age old (DECIDES);
+    (b) the keep set is closed under `parent_id`: besides the backups' own ids, the function inserts ids obtained from a
+    `parent_id` field into the keep set, and does so before the first file is removed.  Without (b) a retained incremental
+    loses an ancestor and can no longer be restored."""
+    from vlib import mirdec as MD
+    import vlib.mir as _M
+    from vlib.mirflow import origin as _o
+    P = "backup::BackupManager::prune_backups"
+    REMOVE_B = call(r"= std::fs::remove_file::", name="fs::remove_file(backup file)")
+    KEEP_INS = call(r"= HashSet::<(uuid::)?Uuid>::insert\(", name="to_keep.insert")
+    pi = field_index("backup.rs", "BackupMetadata", "parent_id")
+    ii = field_index("backup.rs", "BackupMetadata", "id")
+    mi = field_index("backup.rs", "RetentionPolicy", "min_age_days")
+    if None in (pi, ii, mi):
+        return [Result("inconclusive", "BackupMetadata.parent_id / id or RetentionPolicy.min_age_days not found")]
+    out = []
+    atoms = [("kept", r"^call HashSet::<(uuid::)?Uuid>::contains::<"), ("age", r"^call core::num::<impl u64>::saturating_sub$"),
+             ("min_age_days", r"^\(\(\*\{arg\(_2: &RetentionPolicy\)\}\)\.%d: u64\)$" % mi)]
+    start = Arm(r"^call HashSet::<(uuid::)?Uuid>::contains::<", {"0", "otherwise"}, name="keep-set test of a backup")
+    out += MD.decides(F, P, call(r"= HashSet::<(uuid::)?Uuid>::contains::<", name="to_keep.contains(backup.id)"), {"remove": REMOVE_B}, atoms, {"remove": ("=>", "(and (not kept) (>= age (* min_age_days 86400)))")},
+                      declare=("kept",), containing=REMOVE_B, what="prune_backups removes a backup's files only if it is not in the keep set and not younger than min_age_days")
+    fc = FnCheck(F, P, containing=REMOVE_B)
+    if fc.fn is None:
+        return out + [fc.missing()]
+    fn = fc.fn
+    # (b) closure under parent_id
+    reads_parent = False
+    for name, f2 in F.items():
+        if "prune_backups" not in name:
+            continue
+        for b in f2.blocks.values():
+            if b.cleanup:
+                continue
+            txt = " ".join(b.stmts) + " " + (b.term or "")
+            if re.search(r"\.%d: (std::option::)?Option<(uuid::)?Uuid>\)" % pi, txt):
+                reads_parent = True
+    foreign = []
+    for b in fn.blocks.values():
+        if not b.cleanup and KEEP_INS.match_block(fn, b):
+            a = _M._split_top(b.args)
+            src = _o(fn, a[1]) if len(a) > 1 else "?"
+            if re.search(r" as Some\)\.0: (uuid::)?Uuid\)$", src) or not re.search(r"\)\.%d: (uuid::)?Uuid\)$" % ii, src):
+                foreign.append((b.idx, src))  # an Option<Uuid> payload (a parent id) or anything else that is not `<backup>.id`
+    r = fc.reachable(REMOVE_B)
+    smp = {"fn": fc.name, "kind": "PROVENANCE", "reads_parent_id": reads_parent, "keep_set_inserts_other_than_own_id": [s_[:80] for _i, s_ in foreign][:4]}
+    if not (reads_parent and foreign):
+        out.append(Result("violated", "prune_backups never adds the parents of retained backups to the keep set (%s): the newest backup of a bucket can be an incremental whose full backup is deleted, "
+                          "after which the retained incremental cannot be restored" % ("parent_id is never read" if not reads_parent else "no id other than a backup's own is inserted into the keep set"),
+                          queries=r.queries, seconds=r.seconds, sample=smp))
+    else:
+        out.append(Result("holds", "the keep set also receives ids taken from parent_id", queries=r.queries, seconds=r.seconds, sample=smp))
+        PARENT_INS = Ev(r"= HashSet::<(uuid::)?Uuid>::insert\(", kind="call", also=lambda f, b, t, idxs=set(i for i, _s in foreign): b.idx in idxs, name="to_keep.insert(parent id)")
+        # the closure is complete before the first removal (PRECEDES is not expressible: a chain-free timeline inserts no parent)
+        out.append(fc.never(PARENT_INS, frm=REMOVE_B))
+        out.append(fc.reachable(PARENT_INS))
+    return out
 
 
 def limits_decided(F):
@@ -134,4 +196,12 @@ def _checksum_operands(F):
 
 
 def run(tier, seed, notes):
-    return run_mir_obligations("C12", tier, MOS, notes)
+    from vlib import replay as RP
+    obls = run_mir_obligations("C12", tier, MOS, notes)
+    for o in obls:
+        if o.oid == "O12.4/prune_dependencies" and o.verdict == "violated" and "never adds the parents" in (o.detail or ""):
+            r = RP.run_scenario(["prune-breaks-chain"], timeout=300, notes=notes)
+            if r.get("reproduced") is not None:
+                o.replay = r
+                o.detail += " | native replay: " + str(r.get("output"))[:220]
+    return obls
